@@ -8,7 +8,7 @@ import vlib
 from props import fam_mtz as F
 
 
-MANIFEST = {'technique': 'Coq proof (80-byte record/buffer bound for all header values, data bytes and byte-swap, offset arithmetic, per-record round trips) + byte-exact differential check of header text + write/read oracles on gemmi', 'text': 'Theorems: every emitted header record is exactly 80 bytes and no store leaves the 81-byte buffer for ANY field values and ANY number of batches (the snapshot packer is refuted with 13 batches); the WRITE macro semantics under the untruncated snprintf length; data words incl. NaN payloads read back bit-identically, swap is an involution and the byte-swapped file reads to the same offset and data; header-offset arithmetic incl. the 64-bit escape; print->parse round trip of NCOL, COLUMN, PROJECT and batch TITLE records under explicit fits-preconditions (_partial: the remaining records are covered by the byte-exact correspondence). Oracles on gemmi: write_to_string -> read from memory / file / gzip, native and byte-swapped, every field compared and data memcmp, for generated objects (1-40 columns, 0-2000 reflections, 0-30 batches, arbitrary float bit patterns, history, appended text).', 'note': 'Trusted: Coq kernel; extraction; harness. No axioms. Float text of %f/%g directives is supplied by the implementation (not modelled); little-endian host; C int overflow excluded.'}
+MANIFEST = {'technique': 'Coq proof (80-byte record/buffer bound for all header values, data bytes and byte-swap, offset arithmetic, per-record round trips) + byte-exact differential check of header text + write/read oracles on gemmi', 'text': 'Theorems: every emitted header record is exactly 80 bytes and no store leaves the 81-byte buffer for ANY field values and ANY number of batches (the snapshot packer is refuted with 13 batches); the WRITE macro semantics under the untruncated snprintf length; data words incl. NaN payloads read back bit-identically, swap is an involution and the byte-swapped file reads to the same offset and data; header-offset arithmetic incl. the 64-bit escape; print->parse round trip of NCOL, COLUMN, PROJECT, CRYSTAL, DATASET, SORT, SYMINF, MTZHIST, BH and batch TITLE records under explicit fits-preconditions (SYMM records are the triplet round trip of C10; the float-text records CELL/DCELL/DWAVEL/RESO/VALM and COLSRC are covered by the byte-exact correspondence only); every accepted header offset converts to a word count and byte position inside int64. Oracles on gemmi: write_to_string -> read from memory / file / gzip, native and byte-swapped, every field compared and data memcmp, for generated objects (1-40 columns, 0-2000 reflections, 0-30 batches, arbitrary float bit patterns, history, appended text).', 'note': 'Trusted: Coq kernel; extraction; harness. No axioms. Float text of %f/%g directives is supplied by the implementation (not modelled); little-endian host; C int overflow excluded.'}
 
 def first_bytes_cases(rng, n):
     """hand-made 20-byte prefixes for read_first_bytes (incl. the 64-bit escape) and small written files."""
